@@ -11,6 +11,25 @@ CLAIMED = {
    note="Trusts the reference encoder/decoder in harness/vlib/src/wire.rs (written from ETG.1000.4) and the verif-hooks facade being a thin wrapper over CreatedFrame."),
 }
 
+CLAIMED.update({
+ "C01": dict(engine="pdusim", category="exploration", design_ref="§5 C01",
+   technique="stateful property-based testing (proptest op sequences) of the real PDU loop against a reference model of requests, slots and the wire",
+   text="Generated histories (start/poll/transmit/deliver/drop/read-view/trim over 1..16 slots, several outstanding requests, out-of-order and duplicate responses, index wrap) run against the real PduLoop/PduTx/PduRx; every completion is compared with what the modelled network returned for exactly that request, held views are re-read after every step, wake-ups are checked. Counterexample search, no proof.",
+   note="Sequential (op-atomic) interleavings in this engine; trusts the request/slot model in harness/vlib/src/pdusim.rs and the slot inspectors of the verif-hooks feature."),
+ "C03": dict(engine="pdusim", category="exploration", design_ref="§5 C03",
+   technique="stateful property-based testing (proptest op sequences with injected send failures, losses, expiries, drops, reset) with a slot-accounting model and a drain-and-reallocate probe",
+   text="After every op the set of non-free slots must be owned by live handles of the model; after each phase everything is dropped (or leaked and reset) and exactly N frames must be allocatable again. Counterexample search over histories of up to 60/300 ops.",
+   note="Abandonment while the transmit side holds the frame is excluded (C06). Trusts the model and the slot inspectors."),
+ "C05": dict(engine="pdusim", category="exploration", design_ref="§5 C05",
+   technique="property-based testing: arbitrary and structure-aware mutated frames delivered to the real receive path in generated slot-state combinations, before/after snapshot oracle over all slots",
+   text="Frames (random bytes, every header field perturbed, truncations, oversize, echoes, duplicates) are delivered while 1..4 slots are in generated state combinations; panics are caught, and all slots are snapshotted (state, index, whole buffer) before and after: strangers must be ignored, unmatched frames must change nothing, an accepted frame may change only its slot.",
+   note="A frame addressed to an awaiting request that is rejected half-way may leave that one slot claimed (recorded judgement). Trusts the slot inspectors."),
+ "C06": dict(engine="pdusim", category="exploration", design_ref="§5 C06",
+   technique="stateful property-based testing under a harness-owned virtual clock (embassy-time driver): generated loss/expiry/retry/drop histories against a timing model; known findings excluded by construction and searched behind",
+   text="Retry policies None/Count(0..3)/Forever, lost transmissions, deadline positions and drops are generated; every poll result, retransmission (byte-identical), re-arming of the timer, waking of the transmit task and final slot state is compared with the model. Expiry/abandonment while the transmit side holds the frame is generated in separate runs (two recorded known findings).",
+   note="Yield-level interleavings (expiry inside the receive copy etc.) are not reached by this sequential engine. Time is virtual, so 'never hangs' is decided as 'resolves at the modelled deadline'."),
+})
+
 NOT_YET = {}
 
 ALL = [f"C{i:02d}" for i in range(1,21)]
